@@ -30,6 +30,18 @@ def k_of(K, o):
     return None
 
 
+class RingClass(AbstractValue):
+    """type(x) of a symbolic field element of the map: only the constants zero()/one() are used"""
+    sort = "class"
+
+    def v_getattr(self, name, it):
+        if name == "zero":
+            return lambda: 0
+        if name == "one":
+            return lambda: 1
+        raise AnalysisError(f"attribute {name} of the class of a symbolic field element")
+
+
 class Pruned(Exception):
     """the current path is infeasible (decided numerically on folded constants)"""
 
@@ -128,6 +140,9 @@ class LR(AbstractValue):
 
     def __neg__(self):
         return LR({m: self.cx.K.neg(c) for m, c in self.t.items()}, self.cx)
+
+    def v_type(self, it):
+        return RingClass()
 
     def zero_status(self):
         if not self.t:
@@ -318,7 +333,12 @@ class SW(AbstractValue):
         c = SWCond(self._add(o, -1), True)
         return c if op == "==" else c.negate()
 
+    def v_type(self, it):
+        return RingClass()
+
     def v_getattr(self, name, it):
+        if name == "__class__":
+            return RingClass()
         if name == "sgn0":
             self.cx.sgn_log.append(self)
             return Term("sgn0", (len(self.cx.sgn_log) - 1,), "int")
